@@ -11,6 +11,7 @@ import (
 
 	"github.com/agnivade/levenshtein"
 	"github.com/smarthome-go/homescript/v3/homescript/errors"
+	"golang.org/x/text/unicode/norm"
 )
 
 type ValueString struct {
@@ -157,6 +158,8 @@ func (self ValueString) IntoIter() func() (Value, bool) {
 
 func NewValueString(inner string) *Value {
 	zero := 0
-	val := Value(ValueString{Inner: inner, currIterIdx: &zero})
+	// strings are kept in NFC (like the VM's strings) so that equal texts compare equal
+	normalized := norm.NFC.String(inner)
+	val := Value(ValueString{Inner: normalized, currIterIdx: &zero})
 	return &val
 }
